@@ -276,6 +276,100 @@ theorem xhistory_refines (m : Matrix α) (h : m.Inv) (xs : List (XOp α)) :
     rw [← h2, ← h3]
     exact ⟨i1, i2, by rw [i3]⟩
 
+/-! ### round trips -/
+
+/-- the abstraction is injective on matrices satisfying the invariant: equal lists of rows mean
+    the very same matrix (size fields and storage) -/
+theorem abs_injective (a b : Matrix α) (ha : a.Inv) (hb : b.Inv) (h : abs a = abs b) : a = b :=
+  eq_of_toRows_eq a b ha hb h
+
+/-- **Operations that undo each other give back the very same matrix** (size fields and storage,
+    not only the same elements): double in-place transposition, double allocating transposition,
+    retain-all, the identity maps, insert-then-remove of a row / column at any valid position, and
+    removing a row then re-inserting its values through an iterator. -/
+theorem round_trips (m : Matrix α) (h : m.Inv) (p : Nat) (v : α) :
+    m.run [.transposeMut, .transposeMut] = m ∧
+    m.run [.transpose, .transpose] = m ∧
+    m.run [.retainMut .all .all] = m ∧ m.run [.retain .all (.not .none)] = m ∧
+    m.run [.mapMut id] = m ∧ m.run [.mapMutWithIndex fun x _ _ => x] = m ∧
+    (p ≤ m.rows → m.run [.insertRow p v, .removeRow p] = m) ∧
+    (p ≤ m.columns → m.run [.insertColumn p v, .removeColumn p] = m) ∧
+    (1 < m.rows → ∀ (hp : p < (abs m).length),
+      m.run [.removeRow p, .insertRowWith p ((abs m)[p])] = m) := by
+  have hn : Rows.nrows (abs m) = m.rows := length_toRows m
+  have hc : Rows.ncols (abs m) = m.columns := ncols_toRows m h
+  have hrect : Rect m.columns (abs m) := rect_toRows m h
+  -- a history whose list-of-rows effect is the identity gives back `m`
+  have key : ∀ ops : List (Op α), Rows.run (abs m) ops = abs m → m.run ops = m := by
+    intro ops hr
+    obtain ⟨i1, i2, _⟩ := history_refines m h ops
+    exact abs_injective _ _ i1 h (by rw [i2, hr])
+  refine ⟨key _ ?_, key _ ?_, key _ ?_, key _ ?_, key _ ?_, key _ ?_, fun hp => key _ ?_,
+    fun hp => key _ ?_, fun h1 hp => key _ ?_⟩
+  · simp only [Rows.run, Rows.next, Rows.pre, Rows.apply, if_true]
+    exact transpose_transpose_toRows m h
+  · simp only [Rows.run, Rows.next, Rows.pre, Rows.apply, if_true]
+    exact transpose_transpose_toRows m h
+  · have e : Rows.apply (abs m) (.retainMut .all .all) = abs m := by
+      simp only [Rows.apply]
+      rw [show Slice.accepts Slice.all = fun _ => true from rfl, filterIdx_true]
+      rw [List.map_congr_left (g := id) (fun x _ => filterIdx_true x)]
+      simp
+    simp only [Rows.run, Rows.next, e, ite_self]
+  · have e : Rows.apply (abs m) (.retain .all (.not .none)) = abs m := by
+      simp only [Rows.apply]
+      rw [show Slice.accepts Slice.all = fun _ => true from rfl,
+        show Slice.accepts (Slice.not Slice.none) = fun _ => true from rfl, filterIdx_true]
+      rw [List.map_congr_left (g := id) (fun x _ => filterIdx_true x)]
+      simp
+    simp only [Rows.run, Rows.next, e, ite_self]
+  · simp [Rows.run, Rows.next, Rows.pre, Rows.apply]
+  · have e : Rows.apply (abs m) (.mapMutWithIndex fun x _ _ => x) = abs m := by
+      simp only [Rows.apply]
+      apply List.ext_getElem?
+      intro i
+      simp only [List.getElem?_mapIdx]
+      cases (abs m)[i]? with
+      | none => rfl
+      | some r => simp [mapIdx_id']
+    simp only [Rows.run, Rows.next, e, ite_self]
+  · have h1 : Rows.pre (abs m) (.insertRow p v) = true := by simp [Rows.pre, hn, hp]
+    have hlen : (List.insertIdx (abs m) p (List.replicate (Rows.ncols (abs m)) v)).length = m.rows + 1 := by
+      rw [List.length_insertIdx_of_le_length (by rw [← hn] at hp; exact hp)]; simp [← hn]
+    have h2 : Rows.pre (Rows.apply (abs m) (.insertRow p v)) (.removeRow p) = true := by
+      simp only [Rows.pre, Rows.apply, Rows.nrows, hlen, Bool.and_eq_true, decide_eq_true_eq]
+      have := h.2.1; omega
+    simp only [Rows.run, Rows.next, h1, h2, if_true]
+    simp only [Rows.apply]
+    exact List.eraseIdx_insertIdx_self _
+  · have h1 : Rows.pre (abs m) (.insertColumn p v) = true := by simp [Rows.pre, hc, hp]
+    have hnc : Rows.ncols (Rows.apply (abs m) (.insertColumn p v)) = m.columns + 1 := by
+      simp only [Rows.apply]
+      exact ncols_of_rect (rect_map_insertIdx _ hrect p hp v) (by simp only [List.length_map]; rw [length_toRows]; exact h.2.1)
+    have h2 : Rows.pre (Rows.apply (abs m) (.insertColumn p v)) (.removeColumn p) = true := by
+      simp only [Rows.pre, hnc, Bool.and_eq_true, decide_eq_true_eq]
+      have := h.2.2; omega
+    simp only [Rows.run, Rows.next, h1, h2, if_true]
+    simp only [Rows.apply, List.map_map]
+    rw [List.map_congr_left (g := id)]
+    · simp
+    · intro r _
+      exact List.eraseIdx_insertIdx_self _
+  · have hp' : p < m.rows := by rw [← hn]; exact hp
+    have h1' : Rows.pre (abs m) (.removeRow p) = true := by simp [Rows.pre, hn, h1, hp']
+    have hlen : ((abs m).eraseIdx p).length = m.rows - 1 := by
+      rw [List.length_eraseIdx_of_lt hp]; simp [← hn]
+    have hrl : ((abs m)[p]).length = m.columns := hrect _ (List.getElem_mem hp)
+    have hnc : Rows.ncols ((abs m).eraseIdx p) = m.columns :=
+      ncols_of_rect (rect_eraseIdx _ hrect p) (by rw [hlen]; omega)
+    have h2 : Rows.pre (Rows.apply (abs m) (.removeRow p)) (.insertRowWith p ((abs m)[p])) = true := by
+      simp only [Rows.pre, Rows.apply, Rows.nrows, hlen, hnc, hrl, Bool.and_eq_true, decide_eq_true_eq]
+      omega
+    simp only [Rows.run, Rows.next, h1', h2, if_true]
+    simp only [Rows.apply, hnc]
+    rw [List.take_of_length_le (by rw [hrl]; exact Nat.le_refl _)]
+    exact insertIdx_eraseIdx_self _ p hp
+
 /-! ### constructors establish the invariant -/
 
 /-- `Matrix::from(Vec<Vec<T>>)` accepts exactly the rectangular, at least 1×1 lists of rows … -/
@@ -369,6 +463,20 @@ theorem constructed_history_refines (c : Ctor α) (m : Matrix α) (h : c.build =
     cases h
     rw [← habs]
     exact ⟨(history_refines m hinv ops).1, (history_refines m hinv ops).2.1⟩
+
+/-- The same for the extended alphabet: from any constructor, through any finite history that
+    may contain user code panicking at any call. -/
+theorem constructed_xhistory_refines (c : Ctor α) (m : Matrix α) (h : c.build = .ok m)
+    (xs : List (XOp α)) :
+    (m.xrun xs).Inv ∧ abs (m.xrun xs) = Rows.xrun (Rows.ctorRows c) xs := by
+  cases hp : Rows.ctorPre c with
+  | false => rw [(ctor_spec c).2 hp] at h; cases h
+  | true =>
+    obtain ⟨m', hb, hinv, habs⟩ := (ctor_spec c).1 hp
+    rw [hb] at h
+    cases h
+    rw [← habs]
+    exact ⟨(xhistory_refines m hinv xs).1, (xhistory_refines m hinv xs).2.1⟩
 
 /-! ### read-only scalar accessors -/
 
